@@ -60,7 +60,12 @@ where
         }
 
         // Get answer from the thread number `self.now`.
-        let result = self.communication[self.now].receive.recv().unwrap_or_default();
+        // A thread which finishes normally says so by sending None. The channel is closed without
+        // this message only when the thread panicked, do not end the iteration silently then.
+        let result = self.communication[self.now]
+            .receive
+            .recv()
+            .expect("A parallel_map thread panicked, results would be missing.");
 
         // Some(task) means more work for the thread, None means the thread should finish.
         let _ = self.communication[self.now].send.send(self.iter.next());
@@ -132,6 +137,8 @@ where
                     Err(_) => return,
                 }
             }
+            // Finished normally (nobody listens when the ParallelMap was dropped).
+            let _ = thread.send.send(None);
         });
         handles.push(handle);
 
